@@ -7,7 +7,10 @@ import (
 )
 
 func EncodeSemi(w io.Writer, chunks ...int) (n int64, err error) {
-	digits := toDigits(chunks)
+	return encodeDigits(w, toDigits(chunks))
+}
+
+func encodeDigits(w io.Writer, digits []byte) (n int64, err error) {
 	var buf bytes.Buffer
 	buf.Grow(len(digits) / 2)
 	i, remain := 0, len(digits)
@@ -35,11 +38,18 @@ func DecodeSemi(encoded []byte) (chunks []int) {
 }
 
 func EncodeSemiAddress(w io.Writer, input string) (n int64, err error) {
-	parsed, err := strconv.ParseUint(input, 10, 64)
-	if err != nil {
+	digits := make([]byte, 0, len(input))
+	for i := 0; i < len(input); i++ {
+		if input[i] < '0' || input[i] > '9' {
+			break
+		}
+		digits = append(digits, input[i]-'0')
+	}
+	if len(digits) == 0 || len(digits) != len(input) {
+		err = &strconv.NumError{Func: "EncodeSemiAddress", Num: input, Err: strconv.ErrSyntax}
 		return
 	}
-	return EncodeSemi(w, int(parsed))
+	return encodeDigits(w, digits)
 }
 
 func DecodeSemiAddress(encoded []byte) (output string) {
